@@ -19,6 +19,7 @@ that was promoted) and C02_F (applyEq hands the bare keyword to apply(): a tuple
 """
 import importlib
 
+from lib import zbox
 from lib.core import exc_name, idset
 
 ID = "C02"
@@ -317,6 +318,11 @@ def gen_bulk(rng, tier, fam, vtype, kind):
 
 
 def gen(rng, tier, idx):
+    # 15% of the cases keep the index in a ZODB connection with commits / evictions / aborts in between
+    return zbox.sprinkle(rng, gen_mem(rng, tier, idx), 0.15)
+
+
+def gen_mem(rng, tier, idx):
     fam = rng.choice([32, 64])
     vtype = rng.choice(VTYPES)
     cfg = [["cfg", "family", fam], ["cfg", "vtype", vtype],
@@ -360,7 +366,7 @@ class KeywordImpl(object):
         self.cfg = cfg
         self.fam = BTrees.family32 if cfg.get("family") == 32 else BTrees.family64
         if cfg.get("disc") == "callable":
-            disc = lambda obj, default: getattr(obj, "x", default)  # noqa: E731
+            disc = zbox.disc_x
         else:
             disc = "x"
         self.opt = bool(cfg.get("opt", 1))
@@ -502,7 +508,13 @@ class KeywordImpl(object):
 
 def impl_run(hyp, case):
     im = KeywordImpl(hyp, cfgdict(case))
-    return [im.execute(c) for c in case["cmds"]]
+    if not zbox.is_zodb(case):
+        return [im.execute(c) for c in case["cmds"]]
+    box = zbox.ZBox({"idx": im.idx})
+    try:
+        return [box.txn(c, im, ("current",)) if c[0] == "txn" else im.execute(c) for c in case["cmds"]]
+    finally:
+        box.close()
 
 
 def same(a, b):
